@@ -64,6 +64,13 @@ def switched(s, k, thr):
     return k * s if s > thr else 0.25 * k * s * s
 
 
+N_STEPS = 2  # a module-level int: translating a function that reads it fails in another way than a loop does
+
+
+def int_global_rate(s, k):
+    return k * s * N_STEPS
+
+
 def build_model(c, stiff=False):
     m = _build_model(c, stiff)
     if c.get("userlaw"):
@@ -73,7 +80,9 @@ def build_model(c, stiff=False):
         m.add_reaction("vsw", switched, args=[first, "kc", "thr"], stoichiometry={first: -1})
     if c.get("untr"):
         first = m.get_variable_names()[0]
-        m.add_reaction("vu", loop_rate, args=[first, "kin"], stoichiometry={first: -1})
+        fn = {1: loop_rate, 2: int_global_rate, 3: lambda s, k: (
+            k * s)}[c["untr"]]  # 3: a lambda that starts on a continuation line (its source cannot be parsed on its own)
+        m.add_reaction("vu", fn, args=[first, "kin"], stoichiometry={first: -1})
     return m
 
 
@@ -193,8 +202,8 @@ def generate(tier):
             for method in METHODS:
                 cases.append({**base, "mode": f"simulate:{method}"})
     # a rate law that cannot be converted: to_symbolic_model raises, the simulator falls back with a warning
-    for net, dorder, coef in it.product(NETWORKS, [[], ["d2", "d1"]], ("num", "pcomp")):
-        base = {"net": net, "dorder": dorder, "coef": coef, "untouched": 0, "time": 0, "ia": 0, "ratedep": 0, "untr": 1}
+    for net, dorder, coef, untr in it.product(NETWORKS, [[], ["d2", "d1"]], ("num", "pcomp"), (1, 2, 3)):
+        base = {"net": net, "dorder": dorder, "coef": coef, "untouched": 0, "time": 0, "ia": 0, "ratedep": 0, "untr": untr}
         cases.append({**base, "mode": "symbolic"})
         for method in METHODS:
             cases.append({**base, "mode": f"simulate:{method}"})
